@@ -2,10 +2,12 @@ use crate::util::Report;
 use crate::Ctx;
 
 pub mod c17;
+pub mod layers;
 
 pub fn run(prop: &str, ctx: &Ctx) -> Option<Report> {
     match prop {
         "C17" => Some(c17::run(ctx)),
+        "LAYERS" => Some(layers::run(ctx)),
         _ => None,
     }
 }
